@@ -34,7 +34,7 @@ CHECKS = {
             'DESIGN.md §3 C11'),
     'C12': ('model_checking', 'exhaustive enumeration of exit-reason x restart-hook-answer histories through the real restart path under the controlled runtime, policy monitor',
             'E1',
-            'History enumeration on the implementation: for 45 (quick) / 120 (thorough) option combinations (maxRestarts, restartHookFile, '
+            'History enumeration on the implementation: for 60 (quick) / 210 (thorough) option combinations (maxRestarts, restartHookFile, '
             'restartHookOn, shutdownOn, stability answer) every exit-reason sequence of the stated prefix tree and every single restart-hook '
             'answer deviation is driven through postMortemCheck -> _restartComponent -> ComponentState.restart -> Engine.restart -> run with a '
             'real hook file; every relaunch is checked against the policy of the statement (restartable reason, budget, resubmission cap, final state); '
